@@ -108,8 +108,8 @@ def helpers_of(fx, proc):
     return sum(1 for e in fx.events() if e["k"] == "start" and (e.get("id") or {}).get("cmd") == proc.cmd)
 
 
-def new_fixture(bins, bind_timeout_ms=None):
-    fx = fixture.Fixture(bins, [{"path": "t1"}, {"path": "t2", "uses": ["t1"]}], max_retained_runs=3)
+def new_fixture(bins, bind_timeout_ms=None, lock_host=None):
+    fx = fixture.Fixture(bins, [{"path": "t1"}, {"path": "t2", "uses": ["t1"]}], max_retained_runs=3, lock_host=lock_host)
     if bind_timeout_ms:
         cfg = fx.config()
         cfg["server"]["lock"]["bind_timeout_ms"] = bind_timeout_ms
@@ -123,7 +123,7 @@ def new_fixture(bins, bind_timeout_ms=None):
 
 def parked_scenario(bins, idx, spec, rng):
     """spec: {"holder": api, "contenders": [api..], "end": "release"|"fail"|"kill", "successor": api}"""
-    fx = new_fixture(bins)
+    fx = new_fixture(bins, lock_host="localhost" if idx % 3 == 1 else None)
     try:
         release = os.path.join(fx.root, "release")
         n = [0]
@@ -196,7 +196,7 @@ def queued_scenario(bins, idx, spec, rng):
 
 def offsets_scenario(bins, idx, rng):
     """Independent driver: 4-8 contenders with random start offsets, nobody parked."""
-    fx = new_fixture(bins)
+    fx = new_fixture(bins, lock_host="localhost" if idx % 2 else None)
     try:
         k = rng.randint(4, 8)
         procs = []
@@ -215,7 +215,7 @@ def gap_scenario(bins, idx, rng):
     """2-4 contenders started together, each with its listen(2) call delayed by 300 ms (strace syscall injection): every
     one of them has bound the lock address before any of them listens - the schedule in which bind alone decides nothing.
     Exactly one may get past acquisition."""
-    fx = new_fixture(bins)
+    fx = new_fixture(bins, lock_host="localhost" if idx % 2 else None)
     try:
         k = rng.randint(2, 4)
         prefix = ["strace", "-f", "-o", "/dev/null", "-e", "trace=listen", "-e", "inject=listen:delay_enter=300000"]
